@@ -13,7 +13,8 @@
          Route Monitoring applies the UPDATE it carries to the table selected by the peer header
            (peer type 0 pre-/post-policy Adj-RIB-In, peer type 3 Loc-RIB, RFC 9069), keyed by prefix -
            and by (prefix, path identifier) when the Peer Up OPENs announced ADD-PATH (RFC 7911);
-         Peer Down closes the bracket; Termination closes the session.
+         Peer Down closes the bracket; Termination closes the session; a lost connection ends it
+           too (StDrop), and the next Initiation opens a new session with empty tables.
        Anything that does not fit (route monitoring outside a bracket, a second Peer Up, an unknown
        peer or prefix, a header that is not the session's, an unparsable record) is NOTED in st.viol.
      - what the folded tables must equal (property layer): PreOk, PostOk (a sandwich), LocOk / LocpOk,
@@ -45,12 +46,16 @@ SameStored(o, r) == IF LpFree(r) THEN Norm(o) = Norm(RecvRec(r)) ELSE o = RecvRe
 (* the BMP station *)
 
 EmptyLoc == [x \in Prefixes |-> NoRoute]
-(* ghost: neighbours de-configured while their bracket was open (set by the trace spec, an INPUT fact);
+(* sess: number of monitoring sessions opened since the station was configured; old: (neighbour, prefix)
+   pairs whose route was reported post-policy on an EARLIER session and not again since; fresh: pairs the
+   neighbour announced after the current session was opened (maintained by the trace spec, an input fact).
+   ghost: neighbours de-configured while their bracket was open (set by the trace spec, an INPUT fact);
    ip: (neighbour, prefix) pairs reported in the initial post-policy dump of this monitoring session.
    Both only serve the weakened (_KF) invariants. *)
 StInit == [on |-> FALSE, pol |-> "none", started |-> FALSE, initial |-> FALSE, up |-> {}, locup |-> FALSE,
            pre |-> NoTbl, post |-> NoTbl, loc |-> {}, locp |-> EmptyLoc,
-           ghost |-> {}, ip |-> {}, viol |-> {}, n |-> 0]
+           ghost |-> {}, ip |-> {}, viol |-> {}, n |-> 0, dropped |-> FALSE,
+           sess |-> 0, old |-> {}, fresh |-> {}]
 
 WantsPre(pol)  == pol \in {"pre", "all"}
 WantsPost(pol) == pol \in {"post", "all"}
@@ -116,7 +121,8 @@ StRm(st, m) ==
         s3 == NoteIfNot(s2, ~UnknownPfx(m), "unknown-prefix", p)
     IN IF m.eor THEN s3
        ELSE IF m.post THEN [s3 EXCEPT !.post = ApplyAnn(ApplyWd(@, p, m.wd, 1), p, m.ann, 1),
-                                      !.ip = IF st.initial THEN @ \cup AnnKeys(m, p) ELSE @ \ AnnKeys(m, p)]
+                                      !.ip = IF st.initial THEN @ \cup AnnKeys(m, p) ELSE @ \ AnnKeys(m, p),
+                                      !.old = (@ \ AnnKeys(m, p)) \ {<<p, m.wd[j].x>> : j \in 1..Len(m.wd)}]
        ELSE [s3 EXCEPT !.pre = ApplyAnn(ApplyWd(@, p, m.wd, 1), p, m.ann, 1)]
 
 StUp(st, m) ==
@@ -155,13 +161,13 @@ StDown(st, m) ==
                   !.ip = {k \in @ : k[1] # p}]
 
 Forget(s) == [s EXCEPT !.up = {}, !.locup = FALSE, !.pre = NoTbl, !.post = NoTbl, !.loc = {}, !.locp = EmptyLoc,
-                       !.ghost = {}, !.ip = {}]
+                       !.ghost = {}, !.ip = {}, !.fresh = {}]
 
 StFold1(st0, m) ==
   LET st == [st0 EXCEPT !.n = @ + 1] IN
   (* every record is exactly as long as its header says (the token the splitter cut) *)
   LET s0 == IF "declen" \in DOMAIN m THEN NoteIfNot(st, m.declen = m.toklen, "framing", "-") ELSE st IN
-  CASE m.t = "init" -> [Forget(NoteIfNot(s0, ~st.started, "init-twice", "-")) EXCEPT !.started = TRUE]
+  CASE m.t = "init" -> [Forget(NoteIfNot(s0, ~st.started, "init-twice", "-")) EXCEPT !.started = TRUE, !.dropped = FALSE, !.sess = @ + 1]
     [] m.t = "term" -> [Forget(NoteIfNot(s0, st.started, "term-before-init", "-")) EXCEPT !.started = FALSE]
     [] m.t \in {"up", "down", "rm"} ->
          LET s1 == NoteIfNot(s0, st.started, "before-init", "-")
@@ -175,6 +181,11 @@ StFold(st, ms, i) == IF i > Len(ms) THEN st ELSE StFold(StFold1(st, ms[i]), ms, 
 (* the station is switched on / off by configuration (input) *)
 StOn(st, pol) == [StInit EXCEPT !.on = TRUE, !.pol = pol, !.initial = TRUE, !.viol = st.viol, !.n = st.n]
 StOff(st)     == [st EXCEPT !.on = FALSE]
+(* the connection to the station is lost (the station closed it): the monitoring session is over and a
+   station keeps nothing of it (RFC 7854 3.2); whatever the daemon sends next belongs to a NEW session,
+   which starts from empty tables: Initiation, the Peer Up of every established neighbour, its tables *)
+PostPairs(st)  == {k \in Peers \X Prefixes : st.post[k[1]][k[2]] # NoRoute}
+StDrop(st)    == IF st.on THEN [Forget(st) EXCEPT !.started = FALSE, !.dropped = TRUE, !.old = @ \cup PostPairs(st)] ELSE st
 Tags(st) == {k[1] : k \in st.viol}
 
 ---------------------------------------------------------------------------
